@@ -281,7 +281,7 @@ func typeFacts(v Value) []Term {
 					out = append(out, mkCmp("<=", Term{lo, sInt}, t), mkCmp("<=", t, Term{hi, sInt}))
 				} else if b.Info()&types.IsString != 0 {
 					sl := app("slen", sInt, t)
-					out = append(out, mkCmp(">=", sl, tZero), mkEq(mkEq(sl, tZero), mkEq(t, tZero)))
+					out = append(out, mkCmp(">=", sl, tZero), mkCmp("<=", sl, Term{"9223372036854775807", sInt}), mkEq(mkEq(sl, tZero), mkEq(t, tZero)))
 				}
 			} else if isRefLike(l.T) || isInterface(l.T) {
 				out = append(out, mkCmp(">=", t, tZero))
